@@ -309,7 +309,13 @@ def run_case(case, rec):
                 rec.count("grad_comparisons")
                 if not close(la, lb, 1e-7, 1e-9):
                     rec.violation("%s/gradient/network" % sig, "network gradient differs from the per-sample loop")
-        # caller's params untouched
+        # caller's params untouched (eager call: under jit the function only sees a copy of the containers)
+        if case["seed"] % 3 == 0:
+            te = guard.call(loss.evaluate, params, batch)[1]
+            rec.count("eager_evaluations")
+            for t in exp:
+                if not close(float(te[t]), float(terms[t]), 1e-10, 1e-12):
+                    rec.violation("%s/%s/eager-differs-from-jit" % (sig, t), "eager %r vs jit %r" % (float(te[t]), float(terms[t])))
         for k in KEYS:
             if float(np.sum(np.asarray(params.eq_params[k]))) != EQ0[k]:
                 rec.violation("%s/caller-params-modified" % sig, "caller's eq_params[%s] changed" % k)
